@@ -808,8 +808,22 @@ let op_pp r = function
 
 (* ---------- op: html (C17) ---------- *)
 let op_html r = function
-  | [mode; ver; values; attrs; skel; scheme; complete; err; det] ->
+  | [mode; ver; values; attrs; skel; scheme; complete; err; det; region] ->
     tag r ("mode=" ^ mode);
+    (* the whole dynamic region, byte for byte *)
+    (if region <> "-" && not (starts_with err "PANIC") && not (starts_with err "ERR") then begin
+       let verb = bytes_of_hex ver in
+       let m = if mode = "agg" then M.render_content_buckets verb (buckets_of (parse_sx values))
+               else M.render_content_goroutines verb (goroutines_of (parse_sx values)) in
+       let ms = string_of_bytes m and is = unhex region in
+       if ms <> is then begin
+         flag r "corr:html-region";
+         let i = ref 0 in
+         while !i < String.length ms && !i < String.length is && ms.[!i] = is.[!i] do incr i done;
+         let ctx s = String.escaped (String.sub s (max 0 (!i - 30)) (min 70 (String.length s - max 0 (!i - 30)))) in
+         r.detail <- Printf.sprintf "region differs at %d: model [%s] impl [%s]" !i (ctx ms) (ctx is)
+       end
+     end);
     if det <> "1" then flag r "prop:C06:html-nondeterministic";
     if starts_with err "PANIC" then flag r "impl:panic"
     else if starts_with err "ERR" then (flag r "prop:C17:render-error"; r.detail <- err)
